@@ -128,8 +128,8 @@ package rueidis
 //@   modifies *
 //@   ensures [C29 a-reply-that-was-not-consumed-completely-comes-with-an-error] !clean ==> err != nil
 //@   loop 1: invariant [C29] !clean ==> err != nil
-//@   ensures [C29 a-complete-string-reply-is-consumed-including-its-terminator where-defined] (clean && (typ == '$' || typ == '=') && second(returned(readI)) == nil && first(returned(readI)) != -1) ==> calls(Discard) == 1
-//@   loop 0: invariant [C29] calls(Discard) == 0
+//@   ensures [C29 C12 a-complete-string-reply-is-consumed-including-its-terminator where-defined] (clean && (typ == '$' || typ == '=') && second(returned(readI)) == nil && first(returned(readI)) != -1) ==> calls(Discard) == 1
+//@   loop 0: invariant [C29 C12] calls(Discard) == 0
 
 // ---------------------------------------------------------------------------------------------
 // C15 — typed reply accessors never panic (message.go).
@@ -544,6 +544,89 @@ package rueidis
 //@ func clusterClient.DoMultiCache
 //@   modifies *
 //@   assert [C28 every-round-starts-with-no-retry-pending] at Add: retries.RetryDelay == -1
+
+// ---------------------------------------------------------------------------------------------
+// C12 — an integer line decodes to exactly the number it spells (resp.go readI), in 64-bit arithmetic: the
+// line for math.MinInt64 must decode too (its magnitude wraps, and wraps back under the sign).
+//@ specfn rec decw(bs []byte, n int) int64 = ite(n <= 0, 0, decw(bs, n - 1) * 10 + int64(bs[n - 1] - '0'))
+//@ func readI #c12
+//@   mode bv
+//@   modifies *
+//@   ensures [C12 a-line-of-digits-always-decodes where-defined] (second(returned(ReadSlice)) == nil && len(bs) >= 3 && (forall k int :: (0 <= k && k < len(bs) - 2) ==> ('0' <= bs[k] && bs[k] <= '9'))) ==> err == nil
+//@   ensures [C12 integer-is-the-decimal-value-of-its-digits where-defined] err == nil ==> ((s == 1 ==> v == decw(bs, len(bs) - 2)) && (s == -1 ==> v == 0 - decw(bs, len(bs) - 2)) && (s == 1 || s == -1))
+//@   ensures [C12 a-non-digit-is-an-error where-defined] (exists k int :: 0 <= k && k < len(bs) - 2 && !('0' <= bs[k] && bs[k] <= '9')) ==> err != nil
+//@   ensures [C12 sign-is-minus-exactly-for-a-leading-minus where-defined] (second(returned(ReadSlice)) == nil && len(first(returned(ReadSlice))) >= 3) ==> ((first(returned(ReadSlice))[0] == '-' ==> (s == -1 && len(bs) == len(first(returned(ReadSlice))) - 1)) && (first(returned(ReadSlice))[0] != '-' ==> (s == 1 && len(bs) == len(first(returned(ReadSlice))))))
+//@   loop 0: invariant [C12] rangeindex >= -1 && rangeindex < len(bs) - 2
+//@   loop 0: invariant [C12] v == decw(bs, rangeindex + 1)
+//@   loop 0: invariant [C12] forall k int :: (0 <= k && k <= rangeindex) ==> ('0' <= bs[k] && bs[k] <= '9')
+
+// The scalar readers put exactly what the line decoders returned into the message, and nothing else.
+//@ func readInteger #c12
+//@   modifies *
+//@   ensures [C12 integer-reply-carries-the-decoded-number] m.intlen == first(returned(readI)) && err == second(returned(readI))
+//@   ensures [C12 integer-reply-carries-nothing-else] m.bytes == nil && m.array == nil && m.attrs == nil
+
+//@ func readBoolean #c12
+//@   modifies *
+//@   ensures [C12 boolean-is-one-exactly-for-t] err == nil ==> ((first(returned(ReadByte)) == 't' ==> m.intlen == 1) && (first(returned(ReadByte)) != 't' ==> m.intlen == 0))
+//@   ensures [C12 boolean-reply-carries-nothing-else] m.bytes == nil && m.array == nil && m.attrs == nil
+//@   assert [C12 boolean-line-terminator-is-two-bytes] at Discard: arg1 == 2
+
+//@ func readNull #c12
+//@   modifies *
+//@   ensures [C12 null-reply-carries-nothing] m.intlen == 0 && m.bytes == nil && m.array == nil && m.attrs == nil
+//@   assert [C12 null-line-terminator-is-two-bytes] at Discard: arg1 == 2
+
+//@ func readSimpleString #c12
+//@   modifies *
+//@   ensures [C12 simple-string-is-the-line] m.bytes == first(returned(readS)) && m.intlen == second(returned(readS)) && err == third(returned(readS))
+//@   ensures [C12 simple-string-carries-nothing-else] m.array == nil && m.attrs == nil
+
+// A blob is its declared number of bytes; the two terminator bytes are consumed and not part of it.
+//@ func readB #c12
+//@   modifies *
+//@   assert [C12 blob-reads-exactly-the-declared-length] at readN: arg1 == first(returned(readI))
+//@   assert [C12 blob-terminator-is-two-bytes] at Discard: arg1 == 2
+//@   ensures [C12 blob-length-is-the-declared-length where-defined] result2 == nil ==> (result1 == first(returned(readI)) && result1 == len(bs))
+//@   ensures [C12 minus-one-is-the-resp2-null] (second(returned(readI)) == nil && first(returned(readI)) == -1) ==> result2 == errOldNull
+
+// Aggregates: the header number is the element count (pairs for maps), every element is read in order and kept.
+//@ func readArray #c12
+//@   modifies *
+//@   assert [C12 array-reads-the-declared-number-of-elements] at readA: arg1 == first(returned(readI))
+//@   ensures [C12 array-count-and-elements-come-from-the-element-reader] (err == nil && calls(readA) == 1) ==> (m.array == first(returned(readA)) && m.intlen == second(returned(readA)))
+//@   ensures [C12 minus-one-is-the-resp2-null] (second(returned(readI)) == nil && first(returned(readI)) == -1) ==> err == errOldNull
+//@   ensures [C12 streamed-array-uses-the-end-marker-reader] (second(returned(readI)) == errChunked) ==> (calls(readE) == 1 && m.array == first(returned(readE)) && m.intlen == second(returned(readE)))
+
+//@ func readMap #c12
+//@   modifies *
+//@   assert [C12 map-reads-two-elements-per-pair] at readA: arg1 == 2 * first(returned(readI))
+//@   ensures [C12 map-count-and-elements-come-from-the-element-reader] (err == nil && calls(readA) == 1) ==> (m.array == first(returned(readA)) && m.intlen == second(returned(readA)))
+
+//@ func readA #c12
+//@   modifies *
+//@   ensures [C12 exactly-length-elements-are-read] result2 == nil ==> (result1 == length && calls(readNextMessage) == length)
+//@   ensures [C12 every-element-read-is-kept-in-order where-defined] result2 == nil ==> len(msgs) == length
+//@   assert [C12 the-element-appended-is-the-one-just-read] at append: len(arg1) == 1 && arg1[0] == first(returned(readNextMessage))
+//@   loop 0: invariant [C12] len(msgs) == rangeint && calls(readNextMessage) == rangeint && 0 <= rangeint && rangeint < length
+
+//@ func readE #c12
+//@   modifies *
+//@   ensures [C12 every-element-before-the-end-marker-is-kept where-defined] result2 == nil ==> (result1 == len(v) && len(v) + 1 == calls(readNextMessage))
+//@   assert [C12 the-element-appended-is-the-one-just-read] at append: len(arg1) == 1 && arg1[0] == first(returned(readNextMessage))
+//@   loop 0: invariant [C12] len(v) == calls(readNextMessage)
+
+// One reply: the type byte selects the reader, the message is what that reader returned with the type byte stored,
+// an attribute frame is attached to the reply that follows it and is never returned by itself.
+//@ func readNextMessage #c12
+//@   modifies *
+//@   ensures [C12 reply-is-what-its-reader-returned-plus-the-type-byte where-defined] (err == nil && second(returned(fn)) == nil) ==> (m.typ == typ && m.intlen == first(returned(fn)).intlen && m.bytes == first(returned(fn)).bytes && m.array == first(returned(fn)).array)
+//@   ensures [C12 resp2-null-lengths-decode-to-null where-defined] (err == nil && second(returned(fn)) != nil) ==> (second(returned(fn)) == errOldNull && m.typ == '_' && m.bytes == nil && m.array == nil && m.intlen == 0)
+//@   ensures [C12 a-reader-failure-is-reported where-defined] (second(returned(fn)) != nil && second(returned(fn)) != errOldNull) ==> err != nil
+//@   ensures [C12 an-attribute-frame-is-never-the-reply] err == nil ==> m.typ != '|'
+//@   ensures [C12 no-attribute-frame-no-attributes where-defined] (err == nil && calls(fn) == 1 && second(returned(fn)) == nil) ==> m.attrs == nil
+//@   ensures [C12 attribute-frame-is-attached-to-the-next-reply where-defined] (err == nil && calls(fn) >= 2 && second(returned(fn)) == nil) ==> m.attrs != nil
+//@   loop 0: invariant [C12] (calls(fn) == 0 ==> attrs == nil) && (calls(fn) >= 1 ==> (attrs != nil && attrs.typ == '|')) && calls(fn) >= 0
 
 // ---------------------------------------------------------------------------------------------
 // C07 — cached replies expire at the earlier of the client TTL and the server PTTL (message.go, lru.go).
